@@ -67,7 +67,10 @@ class SmtpRelayClient(RelayPoolClient):
         self.socket_creator = socket_creator or create_connection
         self.socket = None
         self.client = None
-        self.ehlo_as = ehlo_as or socket.getfqdn()
+        # The default, socket.getfqdn(), is looked up by _ehlo() in the client's
+        # own greenlet: with gevent it is a cooperative call, and constructors
+        # run inside RelayPool's check-then-add section, which must not yield.
+        self.ehlo_as = ehlo_as
         self.context = context
         self.auth_mechanism = auth_mechanism
         self.tls_immediately = tls_immediately
@@ -96,7 +99,8 @@ class SmtpRelayClient(RelayPoolClient):
 
     @current_command(b'EHLO')
     def _ehlo(self):
-        assert self.ehlo_as is not None
+        if not self.ehlo_as:
+            self.ehlo_as = socket.getfqdn()
         try:
             ehlo_as = self.ehlo_as(self.address)  # type: ignore
         except TypeError:
